@@ -266,6 +266,7 @@ def run(ctx):
                            "vals": rec["vals"], "codes": rec["codes"], "chunks": rec["chunks"]}, "accepted-but-wrong:" + "+".join(sorted(f[2])),
                           {"expected": f[3], "got": red[f[1]]["out"]})
         ctx.add_traces(len(red), stats, name="TraceReduce(accepted cells)")
+    calls_from_repo_tests(ctx)
     from . import compose
 
     # Flox.tla behaviours: a call the composed specification refuses (or accepts) never escapes with an internal error
@@ -276,6 +277,41 @@ def run(ctx):
                        "axis subsets; every cell under all four methods; non-trivial = distinct cell")
     ctx.assumptions += ["explicit method='blockwise' results are compared only when every group lies inside one block (documented precondition)",
                         "sparse / cubed are not installed: ReindexArrayType.SPARSE_COO cells are represented only by the ImportError refusal class"]
+
+
+def calls_from_repo_tests(ctx):
+    """code -> spec on the repository's own tests: every groupby_reduce call they make, recorded by the FLOX_VERIF hook,
+    must be a behaviour of Plan.tla (spec/TraceCalls.tla).  Model-level: disagreements are DRIFT."""
+    from .. import calltrace
+
+    if ctx.tier == "quick":
+        select = ["tests/test_core.py", "-k", "test_groupby_agg_dask or test_first_last or test_method_check or test_validate_reindex or test_choose_engine or test_cohorts_nd_by"]
+    else:
+        select = ["tests/test_core.py", "tests/test_xarray.py"]
+    events, tail = calltrace.record(select, jobs=12)
+    recs, mult, skipped = calltrace.to_records(events)
+    if len(recs) < 50:
+        raise MachineryFailure(f"call tracing of the repository's tests recorded only {len(recs)} distinct calls: {tail}")
+    lines = [{k: v for k, v in r.items() if k != "example"} for r in recs]
+    # binding control: a recorded call whose strategy is altered must be rejected
+    ok = next(r for r in lines if r["hasplan"] and r["kind"] == "ok" and r["plan"] == "map-reduce")
+    ctrl = dict(ok, id=-7, plan="blockwise")
+    fails, stats = tlc.validate_trace("TraceCalls", lines + [ctrl], tag="c19-calls", shards=4)
+    seen = False
+    ncalls = sum(mult.values())
+    bad_calls = 0
+    for f in fails:
+        if f[1] == -7:
+            seen = True
+            continue
+        r = recs[f[1]]
+        bad_calls += mult[f[1]]
+        ctx.drift.append(f"repo-test call not a behaviour of Plan.tla ({'+'.join(sorted(set(f[2]) - {'joint'}))}; {mult[f[1]]} calls): observed kind={r['kind']} plan={r['plan']} "
+                         f"engine={r['engine']} rb={r['rb']}; model={f[3]}; cfg={r['cfg']} e.g. {r['example']}")
+    if not seen:
+        raise MachineryFailure("TraceCalls binding control (altered strategy) was accepted")
+    ctx.add_traces(ncalls, stats, name="TraceCalls(repository tests)")
+    ctx.cov["repo_test_calls"] = {"calls": ncalls, "distinct_records": len(recs), "skipped": skipped, "calls_not_explained": bad_calls, "pytest": tail.splitlines()[-1] if tail else ""}
 
 
 def replay(ctx, payload):
